@@ -1,0 +1,38 @@
+// Copyright 2025 SCION Association
+//
+// Licensed under the Apache License, Version 2.0 (the "License");
+// you may not use this file except in compliance with the License.
+// You may obtain a copy of the License at
+//
+//   http://www.apache.org/licenses/LICENSE-2.0
+//
+// Unless required by applicable law or agreed to in writing, software
+// distributed under the License is distributed on an "AS IS" BASIS,
+// WITHOUT WARRANTIES OR CONDITIONS OF ANY KIND, either express or implied.
+// See the License for the specific language governing permissions and
+// limitations under the License.
+
+//go:build verif
+
+package dispatcher
+
+import (
+	"net/netip"
+
+	"github.com/scionproto/scion/pkg/addr"
+)
+
+// VerifNewServer creates a Server without a socket, for deterministic simulation.
+func VerifNewServer(isDispatcher bool, svcAddrs map[addr.Addr]netip.AddrPort) *Server {
+	s := NewServer(false, svcAddrs, nil)
+	s.isDispatcher = isDispatcher
+	return s
+}
+
+// VerifProcess exposes processMsgNextHop: the decision the shim dispatcher takes for one
+// datagram received with the given outer destination address from the given previous hop.
+func (s *Server) VerifProcess(
+	buf []byte, underlay netip.Addr, prevHop netip.AddrPort,
+) ([]byte, netip.AddrPort, error) {
+	return s.processMsgNextHop(buf, underlay, prevHop)
+}
